@@ -168,12 +168,18 @@ Definition count_status (st : tstatus) (l : list (nat * tstatus)) : nat :=
 Definition case_children (st : tstatus) : list nat :=
   match st with TPassed => [] | TFailed => [0] | TSkipped => [2] | TError => [0; 1] end.
 
-Definition junit_of (s : tsuite) : junit :=
-  {| j_tests := length (ts_tests s);
-     j_failures := count_status TFailed (ts_tests s);
-     j_errors := count_status TError (ts_tests s);
-     j_skipped := count_status TSkipped (ts_tests s);
-     j_cases := map (fun t => (fst t, case_children (snd t))) (ts_tests s) |}.
+(* as_junit_xml_element: a suite that failed as a whole without a failing test case gets one test case
+   ("file comparison", numbered `syn`) carrying the suite's status *)
+Definition junit_tests (syn : nat) (s : tsuite) : list (nat * tstatus) :=
+  if negb (tsuite_bool s) && tests_ok (ts_tests s) then ts_tests s ++ [(syn, tsuite_status s)] else ts_tests s.
+
+Definition junit_of (syn : nat) (s : tsuite) : junit :=
+  let t := junit_tests syn s in
+  {| j_tests := length t;
+     j_failures := count_status TFailed t;
+     j_errors := count_status TError t;
+     j_skipped := count_status TSkipped t;
+     j_cases := map (fun t => (fst t, case_children (snd t))) t |}.
 
 Definition junit_has_failure (j : junit) : bool :=
   existsb (fun c => existsb (fun tag => (tag =? 0) || (tag =? 1)) (snd c)) (j_cases j).
